@@ -129,6 +129,14 @@ values — which are in the relation's native unit — replace `error`, and `uni
 native unit (`self.unit = self.native_unit`), whatever an earlier `change_unit` installed. -/
 def processData (native : U) (_pe : PE) (vals : List Rat) : PE := { unit := native, error := vals, piPow := 0 }
 
+/-- one `process_data` call on a metric object: `none` = the batch is refused (wrong tuple length,
+different numbers of poses, no pose pairs found: an exception is raised before any value is
+computed) and the object keeps unit and values as they were; `some vals` = the fresh native values -/
+def processBatch (native : U) (pe : PE) (batch : Option (List Rat)) : PE :=
+  match batch with
+  | none => pe
+  | some vals => processData native pe vals
+
 /-- the pinned code (before fix 46322c3): `unit` was only set in `__init__`, so a unit installed
 by an earlier `change_unit` persisted over the fresh native values -/
 def processDataOld (pe : PE) (vals : List Rat) : PE := { unit := pe.unit, error := vals, piPow := 0 }
